@@ -163,6 +163,15 @@ package flows
 //@   assigns Contact::name, Contact::language, Contact::status, Contact::timezone, Contact::urns, Contact::ticket, GroupList::groups, ContactURN::*, elems[*ContactURN], elems[*Group], map[string]*FieldValue, FieldValue::*, Value::*, Ticket::*, effects(EventCallback)
 //@   ensures [rep] contactAssetsOK(arg3) && groupsOK(arg3.groups) && noDupUUIDs(arg3.groups.groups)
 
+// ---- C05: ghost step counter. sprintSteps is *defined* as the number of Run.CreateStep calls; only
+// session.visitNode calls it (structural obligation callers_subset), so it counts the steps a sprint visits.
+//@ ghost sprintSteps int protected
+
+//@ interface Run.CreateStep
+//@   assigns ghost.sprintSteps, runs.run::path, runs.run::modifiedOn, elems[Step]
+//@   ensures [counted] ghost.sprintSteps == old(ghost.sprintSteps) + 1
+//@   ensures [step] !isnil(result) && typeis(result, *runs.step) && result.(*runs.step) != nil
+
 // ---- C07: definition getters used in router contracts (immutable definitions)
 //@ interface Wait.Timeout
 //@   pure
